@@ -5481,6 +5481,11 @@ MORE_IN_SET:
         id = (int32) * p++;
 oid_parsing_done:
         /* Done with OID parsing */
+        if (dnEnd - p < 1)
+        {
+            psTraceCrypto("Malformed DN attributes 7\n");
+            return PS_LIMIT_FAIL;
+        }
         stringType = (int32) * p++;
 
         if (getAsnLength(&p, (uint32) (dnEnd - p), &llen) < 0 ||
